@@ -62,24 +62,28 @@ class Heap:
         # mutable cells first (empty), then immutable ones (children exist already), then
         # the contents of the mutable ones: any graph Python itself can hold can be built
         for a, cell in enumerate(cells, 1):
-            if cell['cls'] not in ('tuple', 'frozenset'):
+            if not issubclass(self.classes[cell['cls']], (tuple, frozenset)):
                 self.objs[a] = self.classes[cell['cls']]()
         for a in range(1, len(cells) + 1):
             self._build(a)
         for a, cell in enumerate(cells, 1):
             cls, items, o = cell['cls'], cell['items'], self.objs[a]
-            if cls in ('dict', 'odict'):
+            if isinstance(o, (tuple, frozenset)):
+                continue
+            if isinstance(o, dict):
+                # OrderedDict keeps its own order list: dict.__setitem__ would bypass it
+                setitem = OrderedDict.__setitem__ if isinstance(o, OrderedDict) else dict.__setitem__
                 for k, v in items:
-                    dict.__setitem__(o, self.val(k), self.val(v))
-            elif cls == 'obj':
-                for k, v in items:
-                    object.__setattr__(o, self.val(k), self.val(v))
-            elif cls == 'list':
+                    setitem(o, self.val(k), self.val(v))
+            elif isinstance(o, list):
                 for v in items:
                     list.append(o, self.val(v))
-            elif cls == 'set':
+            elif isinstance(o, set):
                 for v in items:
                     set.add(o, self.val(v))
+            else:
+                for k, v in items:
+                    object.__setattr__(o, self.val(k), self.val(v))
         self.ids = {id(o): a for a, o in self.objs.items()}
 
     def _build(self, a, stack=()):
@@ -171,14 +175,14 @@ class Heap:
         for a in range(1, len(self.cells) + 1):
             o = self.objs[a]
             cls = self.cells[a - 1]['cls']
-            if cls in ('dict', 'odict'):
-                items = [[self.project(k), self.project(v)] for k, v in o.items()]
-            elif cls == 'obj':
-                items = [[self.project(k), self.project(v)] for k, v in vars(o).items()]
-            elif cls in ('set', 'frozenset'):
+            if isinstance(o, dict):
+                items = [[self.project(k), self.project(v)] for k, v in dict.items(o)]
+            elif isinstance(o, (set, frozenset)):
                 items = sorted((self.project(v) for v in o), key=repr)
+            elif isinstance(o, (list, tuple)):
+                items = [self.project(v) for v in (list.__iter__(o) if isinstance(o, list) else tuple.__iter__(o))]
             else:
-                items = [self.project(v) for v in o]
+                items = [[self.project(k), self.project(v)] for k, v in vars(o).items()]
             out.append({'cls': cls, 'items': items})
         return out
 
